@@ -706,6 +706,14 @@ fn shake_1(expression: Expression) -> Expression {
                     let shaken = shake_1(expression);
 
                     match shaken {
+                        // NOTE: A block that was merged from a conjunction is solved entry by entry
+                        // across the elements of an array, which the solver can only do while it
+                        // is the whole nested block, so it is not merged any further
+                        Expression::Nested(field, expression)
+                            if matches!(*expression, Expression::Match(Match::All, _)) =>
+                        {
+                            rest.push(Expression::Nested(field, expression));
+                        }
                         Expression::Nested(field, expression) => {
                             let expressions = nested.entry(field).or_insert(vec![]);
                             (*expressions).push(*expression);
